@@ -8,7 +8,7 @@ F = ["stix2.datastore.CompositeDataSource.get", "stix2.datastore.CompositeDataSo
      "stix2.utils.deduplicate", "stix2.environment.Environment.__init__"]
 
 META = {
-    "engines": ["crosshair"],
+    "engines": ["crosshair", "pysym"],
     "level_text": "Bounded model checking of the real federation and navigation code against a scan of the data: every assignment of 3 versions of an "
                   "object to 3 member sources (each version in any subset of members, 8^3) x every attachment order (6) x with/without a filter "
                   "attached to the composite, checked through CompositeDataSource and Environment (get = newest across members, all_versions / "
@@ -38,4 +38,6 @@ def obligations(tier):
     for q in range(3):
         obls.append(CH("navigation_q%d" % q, H, "navigation", t, mode="E1s", functions=F[3:8], env={"VERIF_PART": str(q)},
                        bounds="queried node %d; 2 relationships over 3 nodes (18 x 9 graphs) x 3 type filters x 4 flag settings x 2 member splits x 4 access paths" % q))
+    from props import C11
+    obls += [o for o in C11.obligations(tier) if o.name == "composite_latest_by_instant"]      # shared: the composite's choice of the latest answer
     return obls
